@@ -137,7 +137,6 @@ class LockWorld:
             q[u] = self.decode_queue(r.out[0]) if r.out else []
         bs = 0
         ls = 0
-        fact_extra = 0
         for a in self.all_accounts:
             for t, n, b in vm.tokens(a):
                 if t == BASE:
@@ -368,7 +367,7 @@ def gen_op(rng, w, stats):
     if s["paused"] and rng.random() < 0.6:
         return ["SetPaused", OWNER, False]
     # ---- out-of-phase / unauthorised / malformed share
-    if roll < 0.07:
+    if roll < 0.11:
         kind = rng.randint(0, 9)
         if kind == 0:
             return ["SetPaused", rng.choice(users), rng.random() < 0.5]
@@ -393,7 +392,7 @@ def gen_op(rng, w, stats):
             return ["SetBurn", rng.choice(users + [OWNER]), rng.choice([MAXP + 1, 20000, rng.randint(0, MAXP)])]
         return ["AddOptions", rng.choice(users + [OWNER]), [[rng.choice([359, 100, opts[0], opts[-1] + 30]), rng.choice([0, 5000, MAXP + 1])]]]
     # ---- administration
-    if roll < 0.10:
+    if roll < 0.14:
         kind = rng.random()
         if kind < 0.3:
             return ["SetBurn", OWNER, rng.choice([0, 1, 5000, MAXP, rng.randint(0, MAXP)])]
@@ -411,7 +410,7 @@ def gen_op(rng, w, stats):
                 return ["AddOptions", OWNER, [[e_new, rng.randint(lo_p, hi_p)]]]
         return ["SetBurn", OWNER, rng.randint(0, MAXP)]
     # ---- time
-    if roll < 0.25:
+    if roll < 0.27:
         targets = []
         for u in users:
             for en in s["q"][u][:2]:
@@ -425,8 +424,6 @@ def gen_op(rng, w, stats):
         return ["Advance", rng.choice([0, 1, 1, 2, 7, 10, 29, 30, 31, 100, 359, 360, rng.randint(1, 800)])]
     # ---- lock
     if roll < 0.43 or not anyh:
-        if roll < 0.03 + 0.25:
-            pass
         le = rng.choice(opts)
         if rng.random() < 0.12:
             return ["LockVirtual", WLSC, amount_class(rng), le, c]
